@@ -34,6 +34,7 @@ Inductive xop :=
 | XUpdate (n : str) (i : init)      (* track.updateAnalyticalFeature(n, v) *)
 | XSetItem (n : str) (i : init)     (* track[n] = v *)
 | XSetObs (n : str) (k : nat) (v : val)   (* track[n, k] = v *)
+| XAddFun (n : str) (c : list val)  (* track.addAnalyticalFeature(f, n) / track[n] = f  with f(track, i) = c[i] *)
 | XExpr (s : str).                  (* track.operate(s) *)
 
 Definition xapply (t : track) (o : xop) : res track :=
@@ -44,6 +45,10 @@ Definition xapply (t : track) (o : xop) : res track :=
   | XUpdate n i => update_af t n i
   | XSetItem n i => if has_af t n then update_af t n i else create_af t n i
   | XSetObs n k v => set_obs t n k v
+  (* __controlName, then createAnalyticalFeature(n) (initial value 0.0) when the name is new, then features[dico[n]] = f(track, i) for
+     every i: the column registered for n receives the computed values (a new name: created with them - the intermediate
+     all-zero column cannot be observed) *)
+  | XAddFun n c => if is_virtual n then Err AFError else if has_af t n then set_col t n c else create_af t n (IList c)
   | XExpr s => do p <- operate_str t s; Ok (fst p)
   end.
 (* a call that raises before mutating leaves the track as it was (expressions that raise are outside the alphabet: they can
